@@ -7,7 +7,10 @@ use crate::prng::Rng;
 
 /// Hand-picked start positions that are rich in the rule interactions the
 /// properties name (castling both sides, en passant, promotions, pins, endings).
-pub const SPECIAL_FENS: [&str; 22] = [
+pub const SPECIAL_FENS: [&str; 25] = [
+    "3k4/8/8/8/8/8/8/4R2K w - - 0 1",
+    "r3qrk1/5ppp/8/8/8/8/5PPP/R3QRK1 w - - 0 1",
+    "4r2k/8/8/8/8/8/8/4Q2K b - - 0 1",
     "r3k2r/8/8/8/8/8/8/R3K2R w KQkq - 0 1",
     "r3k2r/pppppppp/8/8/8/8/PPPPPPPP/R3K2R w KQkq - 0 1",
     "r3k2r/p6p/8/1P4P1/1p4p1/8/P6P/R3K2R w KQkq - 0 1",
